@@ -203,7 +203,11 @@ class Ctx:
         mod = S.module(wgsl)
         it = S.interp(env_passthrough(mod, wgsl))
         inc = none() if include is None else some(include)
-        res = it.explore(lambda it: it.call('create_shader_module_inner', [wgsl, inc, write_options(S.conv, **(options or {}))]))
+        wo = dict(options or {})
+        if isinstance(wo.get('validate'), bool):          # the oracle's JSON spelling (true = all capabilities) -> the interpreter's value
+            wo['validate'] = Agg('Option', [Agg('ValidationOptions', [Agg('Capabilities', [Agg('InternalBitFlags', [0xffffffff])])])], variant='Some', disc=1) \
+                if wo['validate'] else None
+        res = it.explore(lambda it: it.call('create_shader_module_inner', [wgsl, inc, write_options(S.conv, **wo)]))
         S.absorb(it)
         if len(res) != 1:
             raise Inconclusive('concrete run forked')
